@@ -232,8 +232,9 @@ pub fn exec_hist_l(ops: Vec<Op>, force_lazy: bool) -> Vec<Case> {
             let mut out = vec![Case { line, impl_out: ones, nontrivial: nt, tags }, ucase];
             if !glines.is_empty() {
                 let nm = glines.iter().filter(|l| l.starts_with("merge")).count();
+                let nadd = glines.iter().filter(|l| l.starts_with("add")).count();
                 let nsym = glines.iter().filter(|l| l.contains('>')).count();
-                let gtags = vec![format!("history:{}", line_ops.replace(',', "~")), format!("t:merges-{}", if nm < 5 { "lt5" } else { "ge5" }), format!("t:with-perms-{}", nsym.min(3))];
+                let gtags = vec![format!("history:{}", line_ops.replace(',', "~")), format!("t:merges-{}", if nm < 5 { "lt5" } else { "ge5" }), format!("t:with-perms-{}", nsym.min(3)), format!("t:group-adds-{}", nadd.min(4))];
                 out.push(Case { line: format!("grpw {}", glines.join(";")), impl_out: vec!["1"; glines.len()].join(";"), nontrivial: nsym > 0, tags: gtags });
             }
             out
